@@ -127,6 +127,9 @@ pub struct ResumeOpts {
     pub plain: bool,
     /// the new connection is established through an extended authentication exchange (CONNACK received by authorize())
     pub via_auth: bool,
+    /// this many QoS 1 messages arrive together with the CONNACK of the new connection (one transport read hands connect()
+    /// the CONNACK and run() what follows it)
+    pub trailing: u8,
 }
 
 impl Default for WorldCfg {
@@ -217,6 +220,7 @@ pub struct World {
 #[derive(Default, Clone, Debug)]
 pub struct Counters {
     pub sized_inbound: u64,
+    pub packets_arriving_with_connack: u64,
     pub oversize_refusals_expected: u64,
     pub disconnects_ending_in_empty_value: u64,
     pub utf8_topic_pubs: u64,
@@ -1141,6 +1145,10 @@ impl World {
         self.r = o.receive_max.map(|x| x as u32).unwrap_or(65535);
         self.max_packet = o.max_packet;
         self.sim.feed_packet(&SPacket::Connack { session_present: !expect_expired, reason: 0, props: cprops });
+        for t in 0..o.trailing {
+            self.in_publish(1, 600 + t as u16, false, &[], false);
+            self.counters.packets_arriving_with_connack += 1;
+        }
         self.sim.settle();
         self.sim.parse_wire();
         let after_connect = self.sim.wire.len();
@@ -1165,8 +1173,15 @@ impl World {
             self.blind = true;
             return false;
         }
-        let resent: Vec<WirePkt> = self.sim.wire[after_connect..].to_vec();
-        self.attributed = self.sim.wire.len();
+        let mut resent: Vec<WirePkt> = self.sim.wire[after_connect..].to_vec();
+        // acknowledgements of what arrived together with the CONNACK are not re-sent handshakes (the client re-sends PUBLISH and
+        // PUBREL only): they are left to the ordinary attribution
+        let mut tail = 0;
+        while tail < o.trailing as usize && tail < resent.len() && matches!(&resent[resent.len() - 1 - tail].pkt, Ok(CPacket::Ack(a)) if a.kind == AckKind::Puback) {
+            tail += 1;
+        }
+        resent.truncate(resent.len() - tail);
+        self.attributed = self.sim.wire.len() - tail;
         // an operation that failed together with the previous connection (its own packet could not be written, so its
         // response channel was dropped: ContextExited) is finished; it holds no slot and nothing is owed for it
         for i in 0..self.m.len() {
